@@ -380,9 +380,14 @@ def oracle(ck, tier, deep):
         theta = np.sort(rng.uniform(-np.pi, np.pi, size=nth))
         inten = A * (1 + beta * (3 * np.cos(theta) ** 2 - 1) / 2)
         tr = None if rng.random() < 0.5 else [(-2.5, -0.5), (0.4, 2.8)]
+        if rng.random() < 0.3:                                    # a narrow angular window (a slice between detector artefacts)
+            tr = [[(1.5, 1.64)], [(0.9, 1.0)], [(-0.3, -0.2), (2.0, 2.1)]][int(rng.integers(0, 3))]
+            theta = np.sort(rng.uniform(-np.pi, np.pi, size=int(rng.integers(400, 900))))
+            inten = A * (1 + beta * (3 * np.cos(theta) ** 2 - 1) / 2)
+            nth = len(theta)
         ck.count(("S.beta", tr is None, round(beta)), suite="S.anisotropy")
         try:
-            mode = ["raw", "reject", None][int(rng.integers(0, 3))]                 # None: the default
+            mode = ["raw", "reject", None, "bound"][int(rng.integers(0, 4))]        # None: the default
             (b, db), (a, da) = quiet(vmi.anisotropy_parameter, theta, inten, theta_ranges=tr, **({} if mode is None else dict(mode=mode)))
         except Exception as e:
             ck.violation(dict(site="anisotropy_parameter", clause="exception"), dict(beta=beta, A=A), f"{type(e).__name__}: {e}")
